@@ -496,3 +496,32 @@ pub fn ended_with_unsent_segment_larger_than_window(events: &[Event]) -> bool {
     }
     false
 }
+
+/// Intervals (start, until) during which the transport of `addr` refused to take datagrams (the
+/// send call returned Pending: a full UDP send buffer). Nothing can be emitted in such an interval;
+/// what is owed at an instant inside one is owed at its end.
+pub fn blocked_intervals(events: &[Event], addr: std::net::SocketAddr) -> Vec<(Us, Us)> {
+    let prefix = format!("transport blocked: {addr} until ");
+    let mut v = Vec::new();
+    for e in events {
+        if let Ev::Note(n) = &e.ev {
+            if let Some(rest) = n.strip_prefix(&prefix) {
+                if let Ok(u) = rest.trim().parse::<Us>() {
+                    v.push((e.t, u));
+                }
+            }
+        }
+    }
+    v
+}
+
+/// The instant at which something owed at `t` can first be emitted.
+pub fn unblocked_at(blocked: &[(Us, Us)], t: Us) -> Us {
+    let mut t = t;
+    loop {
+        match blocked.iter().find(|(s, u)| *s <= t && t < *u) {
+            Some((_, u)) => t = *u,
+            None => return t,
+        }
+    }
+}
